@@ -48,7 +48,7 @@ def mutants(instrs):
             yield ('subst-%s->%s@%d' % (op, alt, i), instrs[:i] + [alt] + instrs[i + 1:])
         if op == 'PUSH':
             v = int(ins.split()[1], 16)
-            for nv in (v + 1, v ^ 0x20, 0 if v else 1):
+            for nv in ((v + 1) % (2 ** 256), v ^ 0x20, 0 if v else 1):       # a mutant is a well-formed block: constants stay words
                 yield ('const-%x->%x@%d' % (v, nv, i), instrs[:i] + ['PUSH %x' % nv] + instrs[i + 1:])
         if op.startswith('DUP') and op[3:].isdigit():
             k = int(op[3:])
@@ -127,3 +127,47 @@ def rule_shape_blocks(level=1):
             seen.add(b)
             res.append(b)
     return res
+
+
+def random_blocks(n, seed=1, maxlen=22, profile='mixed'):
+    """deterministic pseudo-random blocks over a vocabulary that mixes arithmetic, stack shuffles, constants that are memory
+    offsets / storage keys near each other (aliasing), loads, stores, hashes, environment reads and a few instructions at which
+    blocks are split; every block is executable on a deep enough stack (depth is tracked loosely, the callers compute it)"""
+    import random
+    rnd = random.Random(seed)
+    consts = ["0", "1", "2", "1f", "20", "21", "40", "5", "ff", "100", "ffffffff", "ff" * 20, "ff" * 32, "80" + "00" * 31]
+    zero = ["CALLER", "CALLVALUE", "ADDRESS", "ORIGIN", "TIMESTAMP", "NUMBER", "CALLDATASIZE", "CHAINID", "SELFBALANCE"]
+    un = ["ISZERO", "NOT", "MLOAD", "SLOAD", "POP", "BALANCE", "CALLDATALOAD"]
+    bi = ["ADD", "SUB", "MUL", "DIV", "SDIV", "MOD", "SMOD", "AND", "OR", "XOR", "LT", "GT", "SLT", "SGT", "EQ", "SHL", "SHR", "SAR", "BYTE",
+          "SIGNEXTEND", "EXP"]
+    mem = ["MSTORE", "MSTORE8", "SSTORE", "KECCAK256"]
+    ter = ["ADDMOD", "MULMOD"]
+    split = ["LOG0", "LOG1", "GAS", "MSIZE"]
+    out = []
+    for _ in range(n):
+        L = rnd.randint(3, maxlen)
+        b = []
+        for _ in range(L):
+            r = rnd.random()
+            if profile == 'memory':
+                r = r * 0.85 if r > 0.5 else r
+            if r < 0.22:
+                b.append("PUSH " + rnd.choice(consts))
+            elif r < 0.28:
+                b.append(rnd.choice(zero))
+            elif r < 0.40:
+                b.append("DUP%d" % rnd.randint(1, rnd.choice([2, 4, 8])))
+            elif r < 0.50:
+                b.append("SWAP%d" % rnd.randint(1, rnd.choice([2, 4, 8])))
+            elif r < 0.62:
+                b.append(rnd.choice(un))
+            elif r < 0.80:
+                b.append(rnd.choice(bi if profile != 'memory' else bi[:3] + mem))
+            elif r < 0.93:
+                b.append(rnd.choice(mem))
+            elif r < 0.96:
+                b.append(rnd.choice(ter))
+            else:
+                b.append(rnd.choice(split) if profile != 'memory' else rnd.choice(mem))
+        out.append(' '.join(b))
+    return out
